@@ -65,11 +65,11 @@ def _board_classes():
 class A(Adapter):
     name = "connector"
     lean = "connector"
-    serves = {"C04", "C05", "C06", "C07", "C08", "C09", "C10", "C11", "C12"}
+    serves = {"C01", "C04", "C05", "C06", "C07", "C08", "C09", "C10", "C11", "C12"}
     terminate_on_invalid = False
     max_steps = 30
     episode_cap = 120
-    ops = ("state", "step", "judge", "instance")
+    ops = ("state", "step", "judge", "instance", "bounds")
     state_fields = ["grid", "step_count", "agents"]
 
     def configs(self, tier):
